@@ -144,6 +144,10 @@ pub fn order_grid(rng: &mut Rng) -> Vec<Order> {
             }
             match kind {
                 Kind::Reserve => {
+                    // the default replenish amount and its neighbours, spelled out
+                    for a in [79u64, 80, 81] {
+                        out.push(model::mk(kind, idl[2], 5, 5, 5, Side::Buy, e, TimeInForce::Gtc, &Params { thr: 1, amt: Some(a), auto: true, ..d }));
+                    }
                     for auto in [false, true] {
                         out.push(model::mk(kind, idl[2], 5, 5, 5, Side::Buy, 1, TimeInForce::Gtc, &Params { thr: e, amt: None, auto, ..d }));
                         out.push(model::mk(kind, idl[2], 5, 5, 5, Side::Buy, 1, TimeInForce::Gtc, &Params { thr: 1, amt: Some(e), auto, ..d }));
